@@ -581,6 +581,18 @@ func (f *Frame) contractCall(c *ssa.CallCommon, ct *FuncContract, callee *ssa.Fu
 		pcn := ex.def(f.pfx+"panics", "Bool", pc)
 		f.panicEdge(pcn, "callee_panics", anchor)
 	}
+	if !frameOnly {
+		for _, r := range ct.Rejects {
+			if mentions(r.Term, ghostNames) {
+				continue
+			}
+			f.panicEdge(ex.def(f.pfx+"rejects", "Bool", substSX(r.Term, envPre)), "callee_panics", anchor)
+		}
+		if ct.PanicsMay != nil && !mentions(ct.PanicsMay.Term, ghostNames) {
+			mp := ex.decl(f.pfx+"maypanic", "Bool")
+			f.panicEdge(ex.def(f.pfx+"panicsmay", "Bool", and(substSX(ct.PanicsMay.Term, envPre), mp)), "callee_panics", anchor)
+		}
+	}
 	if ct.MayPanic {
 		mp := ex.decl(f.pfx+"maypanic", "Bool")
 		f.panicEdge(mp, "callee_may_panic", anchor)
